@@ -50,7 +50,7 @@ def configs(tier):
                     "reorder_heavy": i % 2 == 1,
                     "fault_initial": i == 6,
                     "variant": ("same", "same", "welcome_error", "crowded",
-                                "wrong", "same", "same", "same")[i]})
+                                "wrong", "crowded", "same", "same")[i]})
     return out
 
 
@@ -189,6 +189,13 @@ def run_one(seed, tape, opts):
     b.script = grammar(tape, b, code_b, "A", dil, pairable)
     kinds = ALL_FAULTS
     ca.pick_faults(tape, w, kinds, 5)
+    planned = None
+    if variant == "crowded" and tape.choose(2, "slowA") == 0:
+        # one of the three is slow to read the server's replies while the
+        # others join (a busy client / a long round trip)
+        t1 = tape.choose(60, "ds_t1")
+        planned = w.plan_downlink_stall(tape.pick(clients, "ds_victim"), t1,
+                                        t1 + 10 + tape.choose(150, "ds_len"))
     traces = set()
     if opts.get("_cover", True):
         for c in clients:
@@ -197,6 +204,8 @@ def run_one(seed, tape, opts):
 
     def done():
         return all(c.is_closed for c in clients) and w.scripts_done()
+    if planned is not None:
+        sim.after_step = planned
     sim.run(4000, until=done)
     w.heal()
     r = sim.run(6000, until=done, max_time=600)
